@@ -34,7 +34,9 @@ def failure_class(p, work, target="native"):
     _shrink_n[0] += 1
     r = compile_run_all([p], work, target, prefix="s%d_" % _shrink_n[0])[0]
     if r["panic"]: return "crash:" + (known_crash_key(r["panic"]) or "other")
-    if not r["accepted"]: return "rejected"
+    if not r["accepted"]:
+        # only a program the reference accepts counts (anything broken is rejected too)
+        return "rejected" if model_check("c01s%d" % _shrink_n[0], [p], [None]).get(0) != "model-rejects" else None
     if r.get("rc") != 0: return "exit"
     obs = core.parse_output(r["out"]) if r.get("out") is not None else None
     mv = model_check("c01s%d" % _shrink_n[0], [p], [obs]).get(0)
